@@ -4,6 +4,7 @@ from typing import Any, Callable, Optional, Sequence
 
 from ..buffer import Buffer, size_uint_var
 from ..tls import Epoch
+from .configuration import SMALLEST_MAX_DATAGRAM_SIZE
 from .crypto import CryptoPair
 from .logger import QuicLoggerTrace
 from .packet import (
@@ -231,6 +232,16 @@ class QuicPacketBuilder:
 
         # check we have enough space
         if packet_start + header_size >= self._buffer_capacity:
+            raise QuicPacketBuilderStop
+
+        # A datagram containing an INITIAL packet may have to be padded to
+        # 1200 bytes, do not start one if the anti-amplification limit does
+        # not leave enough room.
+        if (
+            packet_type == QuicPacketType.INITIAL
+            and self.max_total_bytes is not None
+            and self._buffer_capacity < SMALLEST_MAX_DATAGRAM_SIZE
+        ):
             raise QuicPacketBuilderStop
 
         # determine ack epoch
